@@ -3,8 +3,9 @@ import Log4rsModel.Pattern.Encode
 /-
 C11 driver. Case: pattern, record fields, thread name, MDC. The implementation's observation
 carries, after outcome and operation stream, the environment facts the model takes as inputs
-(build profile, pid, tid, digit masking flag, and per date format of the pattern what chrono
-answered). The model's observation echoes those facts so that equal behaviour gives equal lines.
+(build profile, pid, tid, the digit masking flag — since the date formatter reads the harness'
+fixed instant always `0`; an observation that says `1` is refused —, and per date format of the
+pattern what chrono rendered AT THAT INSTANT: dates are compared digit for digit). The model's observation echoes those facts so that equal behaviour gives equal lines.
 -/
 namespace Driver.C11
 open Log4rs Log4rs.Proto Log4rs.Pattern Log4rs.Pattern.Parse Driver
@@ -68,6 +69,8 @@ def decFacts (fs : List String) : Option Facts :=
     let pid ← decNat p
     let tid ← decNat t
     let masked ← decBool m
+    -- nothing is masked any more (the encode runs under a fixed instant): exact comparison only
+    if masked then none else
     let dates ← mapM? decDateFact (decList ',' ds)
     let tzOffset ← decInt tz
     pure { debug, pid, tid, masked, dates, tzOffset, raw := " ".intercalate fs }
@@ -181,6 +184,14 @@ def hasSpec : Chunk → Bool
 
 def profile : Profile := Profile.debug64
 
+/-- model flag of the finding `C09/mdc-empty-argument`: `true` = the repaired code (an explicitly
+empty MDC key / default is the empty string; default of `Build.mdcEmptyOk`), `false` = the code
+before the repair (`invalid MDC key` / `invalid MDC default`) -/
+def mdcEmptyRepaired : Bool := true
+
+/-- the build the drivers of the pattern area model -/
+def buildFor (env : Env) : Build := { Build.current env with mdcEmptyOk := mdcEmptyRepaired }
+
 /-- the model's observation for a case and the environment facts (shared with the C09 driver) -/
 def modelObs (c : Case) (f : Facts) : String :=
   let tail := " " ++ f.raw
@@ -189,12 +200,12 @@ def modelObs (c : Case) (f : Facts) : String :=
   | .panic _ => "PANIC:new -" ++ tail
   | .ok pieces =>
     let missing := (neededFormatsL pieces).filter (fun fm => (f.dates.find? (fun d => d.fmt = fm)).isNone)
-    let chunks := compileL (Build.current (envOf c f)) pieces
+    let chunks := compileL (buildFor (envOf c f)) pieces
     if !missing.isEmpty then "need-date:" ++ encStr missing.head! ++ tail
     else if !widthsSane c.pattern then "new-only -" ++ tail
     else
       match encList (envOf c f) c.record chunks with
-      | .ok o => "ok " ++ renderOps f.masked o ++ tail
+      | .ok o => "ok " ++ renderOps false o ++ tail
       | .panic _ => "PANIC:encode -" ++ tail
       | .err _ => "err -" ++ tail
 
@@ -226,40 +237,63 @@ def topLevelZoneJunk (pieces : List Piece) : Bool :=
     | .arg n [_, z] _ => (n = cs!"d" || n = cs!"date") && !zoneArgValid z
     | _ => false)
 
-/-- proposed repair of `C11/deep-nesting-stack-overflow`: a nesting limit in the parser.
-`none` = the code as it is (unbounded recursion). -/
-def nestingLimit : Option Nat := some 64
+/-- the patterns of the deep-nesting family (`c11.rs: deep_pattern`) -/
+def deepPattern (shape : String) (n : Nat) : Option (List Char) :=
+  let rep (u : List Char) : List Char := (List.replicate n u).flatten
+  if shape = "closed" then some (rep ['{', '('] ++ ['x'] ++ rep [')', '}'])
+  else if shape = "h" then some (rep ['{', 'h', '('] ++ ['x'] ++ rep [')', '}'])
+  else if shape = "open" then some (rep ['{', '('])
+  else none
 
-/-- the deep-nesting family. The model's recursion has no stack: it says what the statement asks
-for (the pattern's meaning, in closed form per shape); an implementation that aborts disagrees AND
-fails the Spec. -/
-def handleDeep (shape : String) (n : Nat) (obs : List String) : Answer :=
+/-- the deep-nesting family. MODEL: the parser model itself — the nesting limit (`Profile.maxDepth`
+= `MAX_DEPTH` of parser.rs, commit c25fac2) is part of it, no driver-side special case — run on the
+pattern the harness built, summarised like `c11.rs: run_deep` (text length, style calls, first 40
+characters). SPEC (what the statement asks, in closed form per shape): no abort, no panic; up to the
+limit the pattern's meaning (`x`, with set/reset style calls around every highlight level); beyond
+it an `{ERROR: …}` marker. -/
+def handleDeep (c : Case) (shape : String) (n : Nat) (obs : List String) : Answer :=
   let marker := encStr (errorMarker eExpectedClose)
-  let tooDeep := match nestingLimit with | some l => decide (n > l) | none => false
+  let env : Env := { strftimeOk := fun _ => true, dateText := fun _ _ => [], threadName := c.thread,
+                     threadId := 0, pid := 0, mdc := c.mdc, debugBuild := true }
   let model :=
+    match deepPattern shape n with
+    | none => "bad-case:deep"
+    | some pat =>
+      match parse driverClass profile pat with
+      | .err _ => "model-out-of-fuel"
+      | .panic _ => "deep PANIC:new 0 0 _"
+      | .ok pieces =>
+        match encList env c.record (compileL (buildFor env) pieces) with
+        | .ok o => "deep ok " ++ toString o.text.length ++ " " ++ toString o.styles.length ++ " " ++ encStr (o.text.take 40)
+        | .panic _ => "deep PANIC:encode 0 0 _"
+        | .err _ => "deep err 0 0 _"
+  let tooDeep := decide (n > profile.maxDepth)
+  let want :=
     if tooDeep then "deep ok 21 0 " ++ marker
     else if shape = "closed" then "deep ok 1 0 78"
-    else if shape = "h" then "deep ok 1 " ++ toString (2 * n) ++ " 78"
+    else if shape = "h" then "deep ok 1 " ++ toString (if highlightStyle c.record.level |>.isSome then 2 * n else 0) ++ " 78"
     else "deep ok 21 0 " ++ marker
   let impl := " ".intercalate obs
   let spec :=
     if (impl.splitOn "ABORT").length > 1 then
       "FAIL:the process aborted (stack overflow) on a pattern nested " ++ toString n ++ " deep;sig=C11/deep-nesting-stack-overflow"
     else if (impl.splitOn "PANIC").length > 1 then "FAIL:panic on a deeply nested pattern;sig=C11/deep-nesting-panic"
-    else if impl = model then "ok"
-    else "FAIL:deeply nested pattern rendered wrongly;sig=C11/deep-nesting-meaning"
-  { model, spec, tags := ["deep", "deep-" ++ shape, if n ≥ 3000 then "deep>=3000" else "deep<3000"] }
+    else if impl = want then "ok"
+    else if tooDeep then "FAIL:a pattern nested deeper than the limit is not answered with the error marker;sig=C11/deep-nesting-marker"
+    else "FAIL:nested pattern (within the nesting limit) rendered wrongly;sig=C11/deep-nesting-meaning"
+  { model, spec, tags := ["deep", "deep-" ++ shape,
+      if n ≥ 3000 then "deep>=3000" else if tooDeep then "deep>limit" else if n + 1 ≥ profile.maxDepth then "deep-at-limit" else "deep<limit"] }
 
 def handle : Handler := fun cas obs =>
   match cas.getLast? with
   | some last =>
     if last.startsWith "deep:" then
-      match splitOnChar ':' last with
-      | [_, shape, ns] =>
+      match splitOnChar ':' last, decCase cas.dropLast with
+      | [_, shape, ns], some c =>
         match decNat ns with
-        | some n => handleDeep shape n obs
+        | some n => handleDeep c shape n obs
         | none => badCase "deep"
-      | _ => badCase "deep"
+      | _, _ => badCase "deep"
     else handleOrdinary cas obs
   | none => badCase "arity"
 where handleOrdinary : Handler := fun cas obs =>
@@ -284,7 +318,7 @@ where handleOrdinary : Handler := fun cas obs =>
           let spec := if implOutcome.startsWith "PANIC" then "FAIL:panic at construction;sig=C11/width-overflows-usize" else "ok"
           { model := "PANIC:new -" ++ tail, spec, tags := "parse-panic" :: baseTags }
         | .ok pieces =>
-          let chunks := compileL (Build.current (envOf c f)) pieces
+          let chunks := compileL (buildFor (envOf c f)) pieces
           let times := timesOfL chunks
           let missing := (neededFormatsL pieces).filter (fun fm => (f.dates.find? (fun d => d.fmt = fm)).isNone)
           let errTags := match firstError chunks with
@@ -294,8 +328,7 @@ where handleOrdinary : Handler := fun cas obs =>
             (if hasErrorL chunks && (firstError chunks).isNone then ["nested-error"] else []) ++
             (if times.isEmpty then [] else ["date"]) ++
             (if chunks.any hasSpec then ["spec"] else []) ++
-            (if chunks.any (fun | .group _ _ _ => true | _ => false) then ["group"] else []) ++
-            (if f.masked then ["masked"] else [])
+            (if chunks.any (fun | .group _ _ _ => true | _ => false) then ["group"] else [])
           let trivial := !(c.pattern.any isSpecial)
           let tags := if trivial then "trivial" :: tags else tags
           let zoneJunk := topLevelZoneJunk pieces
@@ -308,7 +341,7 @@ where handleOrdinary : Handler := fun cas obs =>
           else
             let encoded := encList env c.record chunks
             let model := match encoded with
-              | .ok o => "ok " ++ renderOps f.masked o ++ tail
+              | .ok o => "ok " ++ renderOps false o ++ tail
               | .panic _ => "PANIC:encode -" ++ tail
               | .err _ => "err -" ++ tail
             let tags := match encoded with
@@ -332,12 +365,12 @@ where handleOrdinary : Handler := fun cas obs =>
                 | some (pre, e), some txt =>
                   match encList env c.record pre with
                   | .ok o =>
-                    let want := maskDigits f.masked (o.text ++ errorMarker e)
+                    let want := o.text ++ errorMarker e
                     if Str.isPrefix want txt then "ok"
                     else "FAIL:error marker or the text before it is missing;sig=C11/error-not-surfaced"
                   | _ => "ok"
                 | none, some txt =>
-                  if trivial && txt ≠ maskDigits f.masked c.pattern then "FAIL:plain text changed;sig=C11/plain-text"
+                  if trivial && txt ≠ c.pattern then "FAIL:plain text changed;sig=C11/plain-text"
                   else "ok"
                 | _, none => "FAIL:unreadable operation stream;sig=C11/ops"
               else "ok"
